@@ -177,8 +177,12 @@ CLAIMED = {
               "C12/C09. Blocks: on the line-level model of get_block_positions (compared with the code on random texts) "
               "any non-empty run of blank lines — empty, blanks, tabs — is the same delimiter (delimiter_immaterial) and a "
               "leading message block leaves title, cell, surface and data blocks unchanged (message_block_immaterial). "
-              "Not proved: letter case (lower-casing is done per parser) and the cell/surface/data card split regexes — "
-              "restyling differential only."),
+              "Cell cards: cellcard.split modelled character by character (compared with the code on the contents of "
+              "generated, restyled and mutated cards) returns number, material, density, geometry and options as written, "
+              "for every spelling of the numbers, void cells with any spelling of zero, LIKE n BUT in any letter case "
+              "(cell_card_split_material / _void / _like). "
+              "Not proved: letter case of keywords and mnemonics (lower-casing is done per parser) and the surface/data "
+              "card split regexes — restyling differential only."),
         design_ref='§8 C14'),
     'C15': dict(
         technique='Lean 4 proof (fold invariant of parse_keywords: the later keyword wins; induction over LIKE chains) + model↔code correspondence on option token lists + differential conversion of LIKE decks against their expansion',
